@@ -52,6 +52,14 @@ class UserAddEdge(ActionGroup):
                 f"than target node {target}"
             )
 
+        # A node cannot get a third child. Check this before a conflicting edge is
+        # removed by force, so that a refused action leaves the tracks unchanged.
+        out_degree_source = self.tracks.graph.out_degree(source)
+        if out_degree_source > 1 and not self.tracks.graph.has_edge(source, target):
+            raise InvalidActionError(
+                f"Expected degree of 0 or 1 before adding edge, got {out_degree_source}"
+            )
+
         # Check if making a merge. If yes and force, remove the other edge and update
         # track ids.
         in_degree_target = self.tracks.graph.in_degree(target)
